@@ -2,7 +2,7 @@
 import glob, os
 from ..common import CORPUS
 
-NTYPES = 46
+NTYPES = 47
 CANCELLING_FILTERS = True       # Reg.filtCancels in the model (M1)
 
 def fnv1a(s):
@@ -12,7 +12,7 @@ def fnv1a(s):
     return h
 
 def go_type_name(t):
-    return {40: "json.RawMessage", 41: "*main.T41", 42: "main.U02", 43: "main.U03", 44: "main.U04", 45: "main.U05"}.get(t, "main.T%02d" % t)
+    return {40: "json.RawMessage", 41: "*main.T41", 42: "main.U02", 43: "main.U03", 44: "main.U04", 45: "main.U05", 46: "main.G46[main.gItem]"}.get(t, "main.T%02d" % t)
 
 SHARD = {t: fnv1a(go_type_name(t)) % 32 for t in range(NTYPES)}
 
@@ -54,9 +54,10 @@ class Gen:
             # the first and the last shard (loops over the shard array start and end there)
             self.types.append(r.choice([t for t, sh in SHARD.items() if sh in (0, 31)]))
         if r.random() < 0.35:
-            self.types.append(r.choice([40, 41]))     # the pre-encoded document type / the type published as a pointer
+            self.types.append(r.choice([40, 41, 46]))     # the pre-encoded document type / published as a pointer / generic
             self.types = list(dict.fromkeys(self.types))
         self.nbodies = r.randint(2, 6)
+        self.leaf_type = self.types[-1]       # its handlers only get leaf bodies; body number `nbodies` publishes to it
 
     def ty(self):
         return self.rng.choice(self.types)
@@ -75,12 +76,19 @@ class Gen:
         r = self.rng
         once = 1 if r.random() < (0.45 if self.focus in ("C04",) else (0.35 if self.focus == "C01" else 0.25)) else 0
         asy = 1 if r.random() < (0.65 if self.focus == "C06" else 0.25) else 0
-        seq = 1 if r.random() < (0.7 if self.focus == "C07" else 0.2) else 0
+        seq = 1 if r.random() < ({"C07": 0.7, "C03": 0.5}.get(self.focus, 0.2)) else 0
         hid = r.randrange(12) if r.random() < 0.5 else r.choice([0, 1, 6, 7])
         body = r.randrange(self.nbodies)
         if seq and not asy:
-            body = r.randrange(2)      # leaf bodies only: a sync Sequential handler must not re-enter itself
-        return "sub %d %d %d %d %d %s %d" % (self.ty() if ty is None else ty, hid, once, asy, seq, self.filt(), body)
+            # a sync Sequential handler must not re-enter itself: leaf bodies, or the body that only publishes to the
+            # leaf type (whose handlers all have leaf bodies, so nothing comes back)
+            body = r.randrange(2)
+            if ty is None and r.random() < 0.4:
+                body = self.nbodies
+        t = self.ty() if ty is None else ty
+        if t == self.leaf_type:
+            body = r.randrange(2)      # handlers of the leaf type never publish
+        return "sub %d %d %d %d %d %s %d" % (t, hid, once, asy, seq, self.filt(), body)
 
     def pub(self, in_body=False):
         r = self.rng
@@ -145,7 +153,7 @@ class Gen:
         pt = any(o.startswith("store") for o in opts) and r.random() < (0.5 if self.focus in ("C13", "C20", "C06") else 0.15)
         if pt:
             opts.append("ptimeout")
-        if "obs" in opts and r.random() < {"C20": 0.4, "C08": 0.5, "C06": 0.3}.get(self.focus, 0.0):
+        if "obs" in opts and r.random() < {"C20": 0.4, "C08": 0.5, "C06": 0.3, "C04": 0.5, "C01": 0.3, "C05": 0.3}.get(self.focus, 0.0):
             opts[opts.index("obs")] = "otel"      # the real OpenTelemetry implementation over the SDK recorders
         r.shuffle(opts)
         lines.append("opts " + " ".join(opts))
@@ -155,11 +163,13 @@ class Gen:
             leaf = b < 2
             acts = [self.body_action(leaf) for _ in range(r.randint(0, 4 if not leaf else 2))]
             lines.append("body %d = %s" % (b, " ; ".join(acts)))
+        lines.append("body %d = pub %d %d 0 bg ; count %d" % (self.nbodies, self.leaf_type, r.randrange(12), self.leaf_type))
         if self.focus in ("C01", "C04", "C05") and r.random() < 0.2:
             # a once handler whose body swaps one registration of its own type for another (net-zero edit of the
             # registry while the publish that fires it is being delivered), placed among the random actions below
             t = self.types[0]; ha, hb, hc = r.sample(range(12), 3); b = self.nbodies - 1
-            lines[-1] = "body %d = unsub %d %d ; sub %d %d 0 0 0 - 0" % (b, t, ha, t, hb)
+            bi = next(i for i, l in enumerate(lines) if l.startswith("body %d = " % b))
+            lines[bi] = "body %d = unsub %d %d ; sub %d %d 0 0 0 - 0" % (b, t, ha, t, hb)
             pre = ["sub %d %d 0 0 0 - %d" % (t, ha, r.randrange(2)), "sub %d %d 1 0 0 - %d" % (t, hc, b)]
             r.shuffle(pre)
             lines += pre + ["pub %d %d 0 bg" % (t, r.randrange(12)), "count %d" % t, "pub %d %d 0 bg" % (t, r.randrange(12))]
@@ -182,8 +192,9 @@ class Gen:
                 lines.append("has %d" % self.ty())
             elif x < 0.95:
                 lines.append("wait" if r.random() < 0.4 else "drain")
-            elif x < 0.965 and self.focus in ("C05", "C01", "C13"):
-                lines.append("setpanich %d" % r.randrange(2))
+            elif x < 0.965 and self.focus in ("C05", "C01", "C13", "C08", "C09"):
+                lines.append({"C05": "setpanich %d", "C01": "setpanich %d", "C13": "setperrh %d", "C09": "setperrh %d",
+                              "C08": r.choice(["sethook bl %d", "sethook al %d"])}[self.focus] % r.randrange(2))
             elif x < 0.972:
                 lines.append("subnil %d %d" % (self.ty(), r.randrange(12)))
             elif x < 0.98:
@@ -205,6 +216,7 @@ PROJ = {
     "C01": ("enter", "exit", "filt", "has", "count", "unsub"),
     "C04": ("enter", "count", "filt"),
     "C05": ("enter", "exit", "panich", "count"),
+    "C03": ("enter", "exit", "has", "count", "unsub"),
     "C06": ("enter", "exit"),
     "C07": ("enter", "exit"),
     "C08": ("enter", "exit", "hook"),
